@@ -13,6 +13,8 @@
 #include "Matrix/MatrixInt.hpp"
 #include "API/SPDE.hpp"
 #include "Basic/Law.hpp"
+#include "LinearOp/PrecisionOpMultiConditional.hpp"
+#include "LinearOp/PrecisionOpMultiConditionalCs.hpp"
 using namespace vh;
 
 static void pairOut(const std::string& what, const std::vector<double>& a, const std::vector<double>& b, double scale, Stats& st)
@@ -194,6 +196,46 @@ int main()
           double scale = ldexp(1. + std::fabs(la), 15);
           pairOut("loglikelihood_cholesky_vs_iterative", {la}, {lb}, scale, st);
         }
+      }
+      // the conditional operator (Q + A'A / sigma2) x = A'z / sigma2: sparse Cholesky against the matrix-free conjugate gradient,
+      // with its default options, with exact residuals recomputed every few iterations, and from a user-supplied initial value
+      {
+        CovAniso* cv = model->getCova(0);
+        ProjMatrix B(dat, mesh);
+        PrecisionOpCs Qcs(mesh, cv); PrecisionOp Qf1(mesh, cv), Qf2(mesh, cv), Qf3(mesh, cv);
+        PrecisionOpMultiConditionalCs chol; chol.push_back(&Qcs, &B); chol.setVarianceData(0.05); chol.makeReady();
+        std::vector<double> zz(nd); for (int i = 0; i < nd; i++) zz[i] = dat->getZVariable(i, 0);
+        std::vector<std::vector<double>> rhs = chol.computeRhs(zz), xc = rhs;
+        chol.evalInverse(rhs, xc);
+        double xm = 1e-12; for (auto& e : xc) for (double v : e) xm = std::max(xm, std::fabs(v));
+        bool fin = true; for (auto& e : xc) for (double v : e) if (!std::isfinite(v)) fin = false;
+        if (fin && !xc.empty())
+          for (int mode = 0; mode < 3; mode++)
+          {
+            PrecisionOpMultiConditional cg; cg.push_back(mode == 0 ? &Qf1 : (mode == 1 ? &Qf2 : &Qf3), &B); cg.setVarianceData(0.05); cg.setEps(1.e-12); cg.setNIterMax(4000);
+            std::vector<std::vector<double>> x = rhs;
+            if (mode == 1) cg.setNIterRestart((int)rng.range(3, 9));
+            if (mode == 2) { cg.setUserInitialValue(true); x = xc; double f = 0.5 + 0.125 * (double)rng.range(0, 3); for (auto& e : x) for (double& v : e) v *= f; }
+            std::vector<std::vector<double>> xinit = x;
+            cg.evalInverse(rhs, x);
+            std::vector<double> a, b; for (auto& e : x) for (double v : e) a.push_back(std::isfinite(v) ? v : 7777.); for (auto& e : xc) for (double v : e) b.push_back(v);
+            // "a solve satisfies its system to the tolerance of the solver": the stopping rule of the conjugate gradient is
+            // <r,r> / nb <= eps with nb = sum of the norms of the right-hand side blocks (default) or <r0,r0> (user initial value);
+            // the true residual b - A x is recomputed here (factor 100 for the drift of the recursive residual)
+            {
+              std::vector<std::vector<double>> ax = rhs; cg.evalDirect(x, ax);
+              double rr = 0.; for (size_t e = 0; e < ax.size(); e++) for (size_t i = 0; i < ax[e].size(); i++) { double r = rhs[e][i] - ax[e][i]; rr += r * r; }
+              double nb = 0.;
+              if (mode == 2) { std::vector<std::vector<double>> x0 = xc, ax0 = rhs; double f0 = 0.; (void)f0; /* same initial value as above */ for (size_t e = 0; e < x0.size(); e++) for (size_t i = 0; i < x0[e].size(); i++) x0[e][i] = xinit[e][i]; cg.evalDirect(x0, ax0); for (size_t e = 0; e < ax0.size(); e++) for (size_t i = 0; i < ax0[e].size(); i++) { double r = rhs[e][i] - ax0[e][i]; nb += r * r; } }
+              else for (auto& e : rhs) { double n2 = 0.; for (double v : e) n2 += v * v; nb += std::sqrt(n2); }
+              double crit = (nb > 0. && std::isfinite(rr)) ? rr / nb : 7777.;
+              printf("t close %s %s %s 0:0 =>\n", mode == 0 ? "conditional_cg_default_residual" : (mode == 1 ? "conditional_cg_restart_residual" : "conditional_cg_initial_value_residual"), dy(1.e-10).c_str(), dy(crit).c_str());
+              st.hit("conditional_cg_residual");
+            }
+            // agreement with the Cholesky solution (default and restart modes: stopped at 1e-12 relative to the right-hand side)
+            if (mode < 2) pairOut(mode == 0 ? "conditional_cg_default_vs_cholesky" : "conditional_cg_restart_vs_cholesky", a, b, ldexp(xm, 3), st);
+          }
+        else st.hit("conditional_cholesky_refused");
       }
       delete m2; delete dat; delete grid;
     }
